@@ -5,6 +5,7 @@ let err_name = function
   | BadPrecision -> "BadPrecision" | ComponentCount -> "ComponentCount" | BadSampling -> "BadSampling"
   | BadScanScript -> "BadScanScript" | BadProgScript -> "BadProgScript" | MissingData -> "MissingData"
   | BadMcuSize -> "BadMcuSize" | FractSample -> "FractSample" | ConversionNotImpl -> "ConversionNotImpl"
+  | BadRestart -> "BadRestart" | BadState -> "BadState" | BadLength -> "BadLength"
   | ArithNotImpl -> "ArithNotImpl" | BadDctCoef -> "BadDctCoef" | MissingCode -> "MissingCode" | NoQuantTable -> "NoQuantTable" | NoHuffTable -> "NoHuffTable"
 
 let zi = z_of_int
@@ -151,6 +152,50 @@ let () = iter_lines (fun line ->
       else if List.exists (fun b -> b land 65535 = 0) basic && iz g_ZERO_QUANT_REJECTED = 1 then print_endline "err NoQuantTable"
       else Printf.printf "ok q=%s\n" (pr_ints (List.map (fun b -> b land 65535) basic))
   | "tjc" :: _ | "tjseq" :: _ | "tn" :: _ -> print_endline "any"
+  | [ "wm"; state; len; code ] ->
+      let state = int_of_string state and len = int_of_string len in
+      let (g, next) = (match state with 0 | 3 -> (CSTATE_START, 0) | 2 -> (CSTATE_SCANNING, 1) | 5 -> (CSTATE_WRCOEFS, 0) | _ -> (CSTATE_SCANNING, 0)) in
+      (match api_write_marker g (zi next) (zi (int_of_string code)) (List.init len (fun k -> zi ((k * 7 + 1) land 255))) with
+       | Inl e -> Printf.printf "err %s\n" (err_name e)
+       | Inr _ -> print_endline "ok m=1")
+  | [ "wt"; nc; arith; opt; prog ] ->
+      let nc = int_of_string nc and arith = arith <> "0" and opt = opt <> "0" and prog = prog <> "0" in
+      let mkc id h v t = { k_id = zi id; k_h = zi h; k_v = zi v; k_tq = zi t; k_td = zi t; k_ta = zi t } in
+      let compsl = if nc = 1 then [mkc 1 1 1 0] else [mkc 1 2 2 0; mkc 2 1 1 1; mkc 3 1 1 1] in
+      let img = { im_prec = zi 8; im_width = zi 16; im_height = zi 16; im_comps = compsl;
+                  im_arith = arith; im_progressive = prog; im_lossless = false;
+                  im_jfif = Some ((((zi 1, zi 1), Z0), zi 1), zi 1); im_adobe = None;
+                  im_dc_L = List.init 16 (fun _ -> Z0); im_dc_U = List.init 16 (fun _ -> zi 1); im_ac_K = List.init 16 (fun _ -> zi 5) } in
+      let q t = List.map (fun bq -> quant_entry bq (zi 50) true) t in
+      let tb a bb = Some { t_a = a; t_b = bb; t_sent = false } in
+      let tbls = [ tb (q g_std_luminance_quant_tbl) []; tb (q g_std_chrominance_quant_tbl) []; None; None;
+                   tb (drop 1 g_std_dc_bits) g_std_dc_vals; tb (drop 1 g_std_dcc_bits) g_std_dcc_vals; None; None;
+                   tb (drop 1 g_std_ac_bits) g_std_ac_vals; tb (drop 1 g_std_acc_bits) g_std_acc_vals; None; None ] in
+      let st0 = { w_tbls = tbls; w_last_ri = Z0 } in
+      (match write_tables_only arith st0 with
+       | Inl e -> Printf.printf "err %s\n" (err_name e)
+       | Inr (tr1, st1) ->
+           let script = if prog then simple_progression (zi nc) (nc = 3)
+                        else [ { s_ncomps = zi nc; s_comps = List.init 4 (fun i -> zi (if i < nc then i else 0)); s_Ss = Z0; s_Se = zi 63; s_Ah = Z0; s_Al = Z0 } ] in
+           let nsc = List.length script in
+           let scans kz = let k = iz kz in
+             if k < 0 || k >= nsc then { sp_comps = []; sp_Ss = Z0; sp_Se = Z0; sp_Ah = Z0; sp_Al = Z0; sp_ri = Z0 } else
+             let s = List.nth script k in
+             { sp_comps = take (iz s.s_ncomps) s.s_comps; sp_Ss = s.s_Ss; sp_Se = s.s_Se; sp_Ah = s.s_Ah; sp_Al = s.s_Al; sp_ri = Z0 } in
+           let o = optimize_eff arith false prog opt false in
+           (match run_master (zi nsc) o (dcrefine_of scans) with
+            | None -> print_endline "nofuel"
+            | Some ev ->
+                (match assemble img scans (fun _ -> []) (regen_std img scans (fun _ _ -> ([], []))) ev st1 with
+                 | Inl e -> Printf.printf "err %s\n" (err_name e)
+                 | Inr tr ->
+                     let b = Buffer.create 2048 in
+                     Buffer.add_string b ("ok A=" ^ hex_of_bytes (bytes_of tr1) ^ " B=");
+                     List.iter (fun m -> match m with
+                       | MkData (_, _) -> Buffer.add_string b "|"
+                       | MkDHT (idx, _, _) when o -> Buffer.add_string b (Printf.sprintf "ffc4%02x.." (iz idx))
+                       | _ -> Buffer.add_string b (hex_of_bytes (encode_mk m))) tr;
+                     print_endline (Buffer.contents b))))
   | "ll" :: api :: prec :: psv :: pt :: _ ->
       (* lossless: jpeg_enable_lossless rejects psv outside 1..7 and pt >= precision; precision 2..16 *)
       if api <> "0" then print_endline "any"
